@@ -2405,6 +2405,13 @@ namespace bloch::runtime {
                 }
             }
 
+            if (bin->op == "+" &&
+                (l.type == Value::Type::String || r.type == Value::Type::String)) {
+                // '+' with a string operand concatenates whatever the other operand is
+                // (booleans included), so decide this before the boolean-only operators.
+                return {Value::Type::String, 0, 0.0, 0, valueToString(l) + valueToString(r)};
+            }
+
             bool lIsBool = l.type == Value::Type::Boolean;
             bool rIsBool = r.type == Value::Type::Boolean;
             if (lIsBool || rIsBool) {
